@@ -1,5 +1,5 @@
 (* C03 — Locale parsing accepts all well-formed locale ids and never silently drops input. *)
-From UL Require Import Bytes Subtags LangId Ext Grammar LangIdSpec LangIdProofs ExtProofs.
+From UL Require Import Bytes Subtags LangId Ext Grammar LangIdSpec LocaleSpec LangIdProofs ExtProofs LocaleSpecProofs.
 From Coq Require Import String.
 
 (* Ok or Err for every byte string: no panic on unsupported / malformed singletons (D1) *)
@@ -24,5 +24,42 @@ Example C03_rejects_named_classes :
                       [bs "foo"%string])).
 Proof. repeat split; vm_compute; reflexivity. Qed.
 
+(* the three-zone oracle (spec/LocaleSpec.v: grammar reading by segments, independent of the parser's
+   shared-iterator control flow), for EVERY byte string:
+   SOUND    - whatever the parser accepts is in the lenient language and the value is exactly the one the
+              grammar assigns: no part of the text is dropped or reinterpreted (duplicate keys: outside);
+   COMPLETE - every strictly well-formed locale (langid; at most one -u- and one -t-, either order;
+              trailing -x-; no empty token, no empty body, every tkey with a value; no duplicate key) is
+              accepted with the specified value;
+   REJECT   - a malformed / over-long / misplaced subtag, a multi-character or repeated singleton, a
+              second tlang, any other singleton: an error. *)
+Theorem C03_sound : forall s l, locale_from_bytes s = Ok l ->
+  match spec_locale_zone (split s) with
+  | MustAccept v | Either v => v = l
+  | Outside => True
+  | MustReject => False
+  end.
+Proof. exact locale_sound. Qed.
+Theorem C03_complete : forall s v, spec_locale_zone (split s) = MustAccept v -> locale_from_bytes s = Ok v.
+Proof. exact locale_complete. Qed.
+Theorem C03_rejects : forall s, spec_locale_zone (split s) = MustReject -> exists e, locale_from_bytes s = Err e.
+Proof. exact locale_rejects. Qed.
+
+(* the zones are inhabited as the statement says *)
+Example C03_zones :
+  (exists v, spec_locale_zone (split (bs "en-US-u-attr-ca-buddhist-t-de-h0-hybrid-x-foo"%string)) = MustAccept v)
+  /\ (exists v, spec_locale_zone (split (bs "en--u-foo-"%string)) = Either v)
+  /\ (exists v, spec_locale_zone (split (bs "en-t-h0"%string)) = Either v)
+  /\ spec_locale_zone (split (bs "en-a-foo"%string)) = MustReject
+  /\ spec_locale_zone (split (bs "en-US-ux-foo"%string)) = MustReject
+  /\ spec_locale_zone (split (bs "en-u-foo-u-bar"%string)) = MustReject
+  /\ spec_locale_zone (split (bs "en-t-en-US-fr"%string)) = MustReject
+  /\ spec_locale_zone (split (bs "en-u-abcdefghi"%string)) = MustReject
+  /\ spec_locale_zone (split (bs "en-u-ca-buddhist-ca-islamic"%string)) = Outside.
+Proof. repeat split; try (eexists; vm_compute; reflexivity); vm_compute; reflexivity. Qed.
+
+Print Assumptions C03_sound.
+Print Assumptions C03_complete.
+Print Assumptions C03_rejects.
 Print Assumptions C03_total.
 Print Assumptions C03_id_prefix.
